@@ -57,13 +57,21 @@ def run(chk):
         "is validated on the live Airplane arrays of every generated pair",
         "sweep: coefficients and derivatives of scaled twins (length, airspeed, density); linear airfoils are Reynolds- and Mach-independent"])
     rng = chk.rng
-    n = chk.q(30, 300)
+    n = chk.q(60, 300)
     for it in range(n):
         mode = ("length", "speed", "density", "length")[it % 4]
         sd = gen.gen_scene(rng, chk.hist, rho="const", wind=False)
         ac = gen.gen_aircraft(rng, chk.hist, max_wings=3, sides=("both", "both", "left", "right"), qc_points_p=0.15)
         st = gen.gen_state(rng, chk.hist, ang=6.0, pose=rng.random() < 0.5, vec_velocity_p=0.3, rate_frames=("body",))
         cs = gen.gen_controls(rng, ac)
+        if it % 5 == 0:
+            # lifting line on Kuchemann's locus of aerodynamic centres (needs a constant sweep): its offset is a fraction of the chord
+            for w in ac["wings"].values():
+                if "semispan" in w:
+                    w["sweep"] = round(rng.uniform(8.0, 30.0), 2)
+                    w["ll_offset"] = "kuchemann"
+                    chk.count("kuchemann-forced")
+                    break
         k = rng.choice([0.1, 0.37, 2.0, 3.5, 12.0])
         sd2, ac2, st2 = copy.deepcopy(sd), ac, copy.deepcopy(st)
         fscale, mscale = 1.0, 1.0
